@@ -1,10 +1,318 @@
-(* C10 - placeholder while the correspondence is being set up *)
+(* C10 - Navigation is coherent and lazy: a part of the value is the value of the part.
+   Only the property theorems, each closed by an exact lemma of Proofs/LayoutValueP.v.
+
+   Vocabulary (Model/LayoutValue.v; B = bytes or characters, A = decoded elementary values):
+     walkv / vnav_of        LocationMaker.walk / unpacker.nav(schema, instance)
+     vnav_name, vnav_index  NDNav.name, NDNav.index       vnav_path  a sequence of both
+     vnav_raw               NDNav.raw                     vnav_value NDNav.value (location.value(instance))
+     row_values             Row.values
+     dec a bytes            unpacker.value(schema of the atom anchored a, bytes): may raise
+     vres: None = out of fuel (cyclic $ref chain), Some (Err e) = raised e, Some (Ok x) = returned x
+   The DNav and WBNav families return the instance itself from value(); their laws are C15_dnav_value /
+   C15_dnav (navigation = plain indexing) and C09_by_name / C09_values (Props/C15.v, Props/C09.v). *)
 From Coq Require Import List Arith NArith ZArith Bool.
 Import ListNotations.
 Require Import SR.Base.Res SR.Spec.Layout SR.Model.Layout SR.Model.LayoutValue SR.Proofs.LayoutValueP.
+Require SR.Spec.Table SR.Spec.JsonDoc SR.Model.SchemaMaker SR.Proofs.SchemaMakerP SR.Model.HeaderRow SR.Proofs.HeaderRowP.
 Open Scope nat_scope.
 
+(* ---- name: every location tree, every anchors table, every record, every decoder.
+   The whole value of a group decodes EVERY member, also every REDEFINES alternative, so it can raise
+   where a part does not: hence the premise that the whole value exists. *)
+Theorem C10_commute_name : forall (B A : Type) (dec : option key -> list B -> res A) (r : list B)
+    (v v' : vnav) (k : key) (d : list (key * pv A)),
+  vnav_value r dec v = Some (Ok (PDict d)) ->
+  vnav_name v k = Ok v' ->
+  exists x, dlookup k d = Some x /\ vnav_value r dec v' = Some (Ok x).
+Proof. intros B A dec. exact (commute_name B A dec). Qed.
+Print Assumptions C10_commute_name.
+
+(* ---- Row.values: the values of the top-level properties, in schema order *)
+Theorem C10_values : forall (B A : Type) (dec : option key -> list B -> res A) (r : list B)
+    (v : vnav) st sz ps (d : list (key * pv A)),
+  vn_loc v = WObj st sz ps ->
+  vnav_value r dec v = Some (Ok (PDict d)) ->
+  map fst d = wkeys ps /\
+  exists vs, row_values r dec v = Some (Ok vs) /\ Forall2 (fun k x => dlookup k d = Some x) (wkeys ps) vs.
+Proof. intros B A dec. exact (row_values_whole B A dec). Qed.
+Print Assumptions C10_values.
+
+(* with distinct property names (a Python dict has no others) that is the list of the dict's values *)
+Theorem C10_values_nodup : forall (B A : Type) (dec : option key -> list B -> res A) (r : list B)
+    (v : vnav) st sz ps (d : list (key * pv A)),
+  vn_loc v = WObj st sz ps -> NoDup (wkeys ps) ->
+  vnav_value r dec v = Some (Ok (PDict d)) ->
+  row_values r dec v = Some (Ok (map snd d)).
+Proof.
+  intros B A dec r v st sz ps d Hl Hnd Hv.
+  destruct (row_values_whole B A dec r v st sz ps d Hl Hv) as [Hk [vs [Hr HF]]].
+  rewrite <- Hk in HF, Hnd. now rewrite (dlookup_nodup A d vs Hnd HF) in Hr.
+Qed.
+Print Assumptions C10_values_nodup.
+
+(* ---- index: refused at and beyond the item count *)
 Theorem C10_index_refused : forall (B : Type) (dcount : list B -> nat) (r : list B) (v : vnav) st sz isz cnt it sch i,
   vn_loc v = WArr st sz isz cnt it sch -> cnt <= i -> vnav_index dcount r v i = Err IndexError.
 Proof. exact index_refused. Qed.
 Print Assumptions C10_index_refused.
+
+(* ---- index: whole and part, for every navigator reached from unpacker.nav by names and indices,
+   when the items schema has no $ref and no OCCURS DEPENDING ON inside (PARTIAL: see below) *)
+Theorem C10_commute_index_partial : forall (B A : Type) (dcount : list B -> nat) (dec : option key -> list B -> res A)
+    (r : list B) (s : js) (p : list wstep) (v0 v : vnav) st sz isz cnt it sch (xs : list (pv A)) i,
+  vnav_of dcount r s = Ok v0 -> vnav_path dcount r v0 p = Ok v ->
+  vn_loc v = WArr st sz isz cnt it sch -> simple sch = true ->
+  vnav_value r dec v = Some (Ok (PList xs)) -> i < cnt ->
+  exists v' x, vnav_index dcount r v i = Ok v' /\ nth_error xs i = Some x /\ vnav_value r dec v' = Some (Ok x).
+Proof.
+  intros B A dcount dec r s p v0 v st sz isz cnt it sch xs i H0 Hp.
+  apply (commute_index_simple B dcount A dec r). exact (inv_path B dcount r p v0 v (inv_of B dcount r s v0 H0) Hp).
+Qed.
+Print Assumptions C10_commute_index_partial.
+
+(* The full statement: the same for every items schema that is CLOSED (every $ref inside refers to an anchor
+   registered inside the item, and nothing outside re-registers that name) and ODO-free.  Not proved: the value of
+   the part is computed with the fuel of the item's own anchors table, and showing that fuel sufficient needs
+   an acyclicity argument.  The correspondence run checks whole-versus-part on every generated tree, and those
+   have REDEFINES ($ref) inside repeated groups.  Items that contain an OCCURS DEPENDING ON table are NOT closed
+   and index() raises KeyError on them: C10_index_odo_refuted. *)
+Definition C10_commute_index_statement : Prop :=
+  forall (B A : Type) (dcount : list B -> nat) (dec : option key -> list B -> res A)
+    (r : list B) (s : js) (p : list wstep) (v0 v : vnav) st sz isz cnt it sch an0 new (xs : list (pv A)) i,
+  vnav_of dcount r s = Ok v0 -> vnav_path dcount r v0 p = Ok v ->
+  vn_loc v = WArr st sz isz cnt it sch -> odo_free sch = true ->
+  walkv dcount r sch st an0 = Ok (it, new ++ an0) ->
+  (forall t, In t (map fst new) -> wlookup t (vn_an v) = wlookup t new) ->
+  (forall k l, In (k, l) ((KName 0%N, it) :: new) -> forall st' t, sub_ref l st' t -> In t (map fst new)) ->
+  vnav_value r dec v = Some (Ok (PList xs)) -> i < cnt ->
+  exists v' x, vnav_index dcount r v i = Ok v' /\ nth_error xs i = Some x /\ vnav_value r dec v' = Some (Ok x).
+
+(* ---- raw bytes: a child lies inside its parent, and its raw bytes are that slice of the parent's *)
+Theorem C10_raw : forall (B : Type) (r : list B) (v v' : vnav),
+  wstart (vn_loc v) <= wstart (vn_loc v') -> wend (vn_loc v') <= wend (vn_loc v) ->
+  vnav_raw r v' = slice (vnav_raw r v) (wstart (vn_loc v') - wstart (vn_loc v)) (wend (vn_loc v') - wstart (vn_loc v)).
+Proof. exact raw_slice. Qed.
+Print Assumptions C10_raw.
+
+(* a property that is not a $ref placeholder *)
+Theorem C10_raw_name : forall (B : Type) (dcount : list B -> nat) (r : list B) (s : js) (p : list wstep) (v0 v v' : vnav) k,
+  vnav_of dcount r s = Ok v0 -> vnav_path dcount r v0 p = Ok v ->
+  vnav_name v k = Ok v' -> ref_prop v k = false ->
+  wstart (vn_loc v) <= wstart (vn_loc v') /\ wend (vn_loc v') <= wend (vn_loc v) /\
+  vnav_raw r v' = slice (vnav_raw r v) (wstart (vn_loc v') - wstart (vn_loc v)) (wend (vn_loc v') - wstart (vn_loc v)).
+Proof.
+  intros B dcount r s p v0 v v' k H0 Hp Hn Hr.
+  destruct (name_inside B dcount r v k v' (inv_path B dcount r p v0 v (inv_of B dcount r s v0 H0) Hp) Hn Hr) as [H1 H2].
+  repeat split; try assumption. now apply raw_slice.
+Qed.
+Print Assumptions C10_raw_name.
+
+(* one occurrence of an item without OCCURS DEPENDING ON inside: occurrence i starts at start + i * item_size,
+   has the item size, and its raw bytes are that slice of the table's *)
+Theorem C10_raw_index : forall (B : Type) (dcount : list B -> nat) (r : list B) (s : js) (p : list wstep) (v0 v v' : vnav)
+    st sz isz cnt it sch i,
+  vnav_of dcount r s = Ok v0 -> vnav_path dcount r v0 p = Ok v ->
+  vn_loc v = WArr st sz isz cnt it sch -> odo_free sch = true ->
+  vnav_index dcount r v i = Ok v' ->
+  wstart (vn_loc v') = st + isz * i /\ wsize (vn_loc v') = isz /\
+  vnav_raw r v' = slice (vnav_raw r v) (wstart (vn_loc v') - wstart (vn_loc v)) (wend (vn_loc v') - wstart (vn_loc v)).
+Proof.
+  intros B dcount r s p v0 v v' st sz isz cnt it sch i H0 Hp Hl Hof Hi.
+  destruct (index_inside B dcount r v st sz isz cnt it sch i v' (inv_path B dcount r p v0 v (inv_of B dcount r s v0 H0) Hp) Hl Hof Hi)
+    as [H1 [H2 [H3 H4]]].
+  repeat split; try assumption. now apply raw_slice.
+Qed.
+Print Assumptions C10_raw_index.
+(* PARTIAL: a $ref placeholder (a COBOL name that belongs to a REDEFINES union) resolves through the anchors to an
+   alternative of an earlier oneOf; that it lies inside the parent follows from C01's well-formedness (the union
+   lies inside the group) and is checked on every generated case by the judge, not proved here. *)
+
+(* ---- laziness (non-interference).  v is one navigator, valid for both records (the same location tree:
+   that is what agreement on the ODO counters buys; for a schema without ODO the tree does not depend on the
+   record at all, C10_tree_fixed).  If the records agree on the bytes of v's own range then value() gives the
+   same answer, the exception included: undecodable bytes anywhere else can neither raise nor change it.
+   foot_inside v says that value() takes no slice outside [start, end); it is computed from the location tree
+   alone, the judge evaluates it on every location of every generated case, and C10_foot_inside_simple proves it
+   for schemas without $ref and ODO. *)
+Theorem C10_lazy : forall (B A : Type) (dec : option key -> list B -> res A) (r r' : list B) (v : vnav),
+  foot_inside v = true ->
+  vnav_raw r v = vnav_raw r' v ->
+  vnav_value r dec v = vnav_value r' dec v.
+Proof. intros B A dec. exact (lazy_value B A dec). Qed.
+Print Assumptions C10_lazy.
+
+(* an elementary item: the value is the item's own decoder applied to the item's own raw bytes, nothing else *)
+Theorem C10_field : forall (B A : Type) (dec : option key -> list B -> res A) (r : list B) (v : vnav) a st sz,
+  vn_loc v = WAtom a st sz ->
+  vnav_value r dec v = match dec a (vnav_raw r v) with Ok x => Some (Ok (PAtom x)) | Err e => Some (Err e) end.
+Proof. intros B A dec. exact (atom_value B A dec). Qed.
+Print Assumptions C10_field.
+
+(* the general frame statement: value() depends on the record only through the slices of its footprint *)
+Theorem C10_frame : forall (B A : Type) (dec : option key -> list B -> res A) (r r' : list B) an f l o,
+  (forall a b, In (a, b) (wfoot f an l o) -> slice r a b = slice r' a b) ->
+  wvalue r dec f an l o = wvalue r' dec f an l o.
+Proof. intros B A dec. exact (frame_wvalue B A dec). Qed.
+Print Assumptions C10_frame.
+
+(* ---- the fuel only bounds cyclic $ref chains: a result, once defined, is the result for every larger fuel *)
+Theorem C10_fuel_stable : forall (B A : Type) (dec : option key -> list B -> res A) (r : list B) an f f' l o x,
+  f <= f' -> wvalue r dec f an l o = Some x -> wvalue r dec f' an l o = Some x.
+Proof. intros B A dec. exact (wvalue_mono B A dec). Qed.
+Print Assumptions C10_fuel_stable.
+
+(* without OCCURS DEPENDING ON the location tree does not depend on the record at all *)
+Theorem C10_tree_fixed : forall (B : Type) (dcount : list B -> nat) (r r' : list B) (s : js) st an,
+  odo_free s = true -> walkv dcount r s st an = walkv dcount r' s st an.
+Proof. intros B dcount r r' s st an H. exact (proj1 (walkv_record_free B dcount r r') s H st an). Qed.
+Print Assumptions C10_tree_fixed.
+
+(* for schemas without $ref and ODO every location reached reads inside its own range, so C10_lazy applies *)
+Theorem C10_foot_inside_simple : forall (B : Type) (dcount : list B -> nat) (r : list B) s p v0 v,
+  simple s = true -> vnav_of dcount r s = Ok v0 -> vnav_path dcount r v0 p = Ok v -> foot_inside v = true.
+Proof. exact foot_inside_simple. Qed.
+Print Assumptions C10_foot_inside_simple.
+
+(* ---- NDNav.index on a negative int is NOT refused (finding K-negative-index): the only test is
+   index >= item_count, and the occurrence is walked from a start before the table *)
+Theorem C10_negative_index_refuted : forall (v : vnav) st sz isz cnt it sch z,
+  vn_loc v = WArr st sz isz cnt it sch -> (z < 0)%Z ->
+  index_start_z v z = Ok (Z.of_nat st + Z.of_nat isz * z)%Z.
+Proof. exact index_start_negative. Qed.
+Print Assumptions C10_negative_index_refuted.
+
+(* on natural numbers index_start_z is where vnav_index walks *)
+Theorem C10_index_start : forall (v : vnav) st sz isz cnt it sch i,
+  vn_loc v = WArr st sz isz cnt it sch -> i < cnt ->
+  index_start_z v (Z.of_nat i) = Ok (Z.of_nat (st + isz * i)).
+Proof. exact index_start_nat. Qed.
+Print Assumptions C10_index_start.
+
+(* ------------------------------------------------------------------ examples (non-vacuity and refutations) *)
+(* 01 R. 05 A PIC X(2). 05 T OCCURS 2. 10 B PIC X. 10 C PIC X(2). 05 D PIC X(3). 05 E REDEFINES D PIC X(3).
+   ids: R=1 A=2 T=3 B=4 C=5 D=6 E=7.  Bytes are numbers; the decoder rejects a field containing 99. *)
+Definition ex_tree : item :=
+  Group 1%N Once None
+    (ICons (Elem 2%N 2 Once None)
+    (ICons (Group 3%N (Times 2) None (ICons (Elem 4%N 1 Once None) (ICons (Elem 5%N 2 Once None) INil)))
+    (ICons (Elem 6%N 3 Once None)
+    (ICons (Elem 7%N 3 Once (Some 6%N)) INil)))).
+Definition ex_dec (a : option key) (bs : list nat) : res (list nat) :=
+  if existsb (Nat.eqb 99) bs then Err ValueError else Ok bs.
+Definition ex_dcount (bs : list nat) : nat := 0.
+Definition ex_r : list nat := [10; 11; 12; 13; 14; 15; 16; 17; 18; 19; 20].
+Definition ex_bad : list nat := [10; 11; 12; 13; 14; 15; 99; 17; 18; 19; 20].     (* C of the second occurrence *)
+Definition ex_nav (r : list nat) : res vnav := vnav_of ex_dcount r (build ex_tree).
+Definition ex_at (r : list nat) (p : list wstep) : res vnav :=
+  match ex_nav r with Ok v => vnav_path ex_dcount r v p | Err e => Err e end.
+Definition ex_val (r : list nat) (p : list wstep) : vres (pv (list nat)) :=
+  match ex_at r p with Ok v => vnav_value r ex_dec v | Err e => Some (Err e) end.
+
+Example C10_example_whole :
+  ex_val ex_r [] = Some (Ok (PDict
+    [(KName 2%N, PAtom [10; 11]);
+     (KName 3%N, PList [PDict [(KName 4%N, PAtom [12]); (KName 5%N, PAtom [13; 14])];
+                        PDict [(KName 4%N, PAtom [15]); (KName 5%N, PAtom [16; 17])]]);
+     (KRedef 6%N, PAtom [18; 19; 20]);
+     (KName 6%N, PAtom [18; 19; 20]);
+     (KName 7%N, PAtom [18; 19; 20])])).
+Proof. vm_compute. reflexivity. Qed.
+
+(* hypotheses of C10_commute_name, C10_values, C10_commute_index_partial, C10_raw_name, C10_raw_index hold here *)
+Example C10_example_parts :
+  ex_val ex_r [SKey (KName 3%N); SIdx 1; SKey (KName 5%N)] = Some (Ok (PAtom [16; 17]))
+  /\ ex_val ex_r [SKey (KName 7%N)] = Some (Ok (PAtom [18; 19; 20]))
+  /\ (match ex_at ex_r [SKey (KName 3%N)] with
+      | Ok v => match vn_loc v with WArr _ _ _ cnt _ sch => simple sch && (cnt =? 2) | _ => false end
+      | Err _ => false end) = true
+  /\ (match ex_at ex_r [] with Ok v => ref_prop v (KName 2%N) | Err _ => true end) = false
+  /\ (match ex_nav ex_r with Ok v => row_values ex_r ex_dec v | Err e => Some (Err e) end)
+     = Some (Ok [PAtom [10; 11];
+                 PList [PDict [(KName 4%N, PAtom [12]); (KName 5%N, PAtom [13; 14])];
+                        PDict [(KName 4%N, PAtom [15]); (KName 5%N, PAtom [16; 17])]];
+                 PAtom [18; 19; 20]; PAtom [18; 19; 20]; PAtom [18; 19; 20]]).
+Proof. vm_compute. repeat split; reflexivity. Qed.
+
+(* laziness: with one undecodable byte the whole record value raises, every other field still reads, the same
+   location trees are built, foot_inside holds, and the refused index is refused *)
+Example C10_example_lazy :
+  ex_val ex_bad [] = Some (Err ValueError)
+  /\ ex_val ex_bad [SKey (KName 3%N); SIdx 1; SKey (KName 5%N)] = Some (Err ValueError)
+  /\ ex_val ex_bad [SKey (KName 3%N); SIdx 1; SKey (KName 4%N)] = Some (Ok (PAtom [15]))
+  /\ ex_val ex_bad [SKey (KName 3%N); SIdx 0] = ex_val ex_r [SKey (KName 3%N); SIdx 0]
+  /\ ex_at ex_bad [SKey (KName 3%N); SIdx 0] = ex_at ex_r [SKey (KName 3%N); SIdx 0]
+  /\ (match ex_at ex_r [SKey (KName 3%N); SIdx 0] with Ok v => foot_inside v | Err _ => false end) = true
+  /\ (match ex_at ex_r [] with Ok v => foot_inside v | Err _ => false end) = true
+  /\ ex_at ex_r [SKey (KName 3%N); SIdx 2] = Err IndexError.
+Proof. vm_compute. repeat split; reflexivity. Qed.
+
+(* K-negative-index: index(-1) on the table T (start 2, item size 3) is walked from start -1 *)
+Example C10_negative_index_example :
+  (match ex_at ex_r [SKey (KName 3%N)] with Ok v => index_start_z v (-1) | Err e => Err e end) = Ok (-1)%Z.
+Proof. vm_compute. reflexivity. Qed.
+
+(* K-index-odo: 01 R. 05 N PIC 9. 05 G OCCURS 2. 10 T OCCURS DEPENDING ON N PIC X.
+   The whole value of G exists, G.index(0) raises KeyError: commutation fails (the items schema of G is not closed) *)
+Definition ex_odo_tree : item :=
+  Group 1%N Once None
+    (ICons (Elem 2%N 1 Once None)
+    (ICons (Group 3%N (Times 2) None (ICons (Elem 4%N 1 (Odo 2%N) None) INil)) INil)).
+Definition ex_odo_dcount (bs : list nat) : nat := match bs with [n] => n | _ => 0 end.
+Example C10_index_odo_refuted :
+  match vnav_of ex_odo_dcount [1; 21; 22] (build ex_odo_tree) with
+  | Ok v0 =>
+      match vnav_name v0 (KName 3%N) with
+      | Ok v =>
+          vnav_value [1; 21; 22] ex_dec v
+            = Some (Ok (PList [PDict [(KName 4%N, PList [PDict [(KName 4%N, PAtom [21])]])];
+                               PDict [(KName 4%N, PList [PDict [(KName 4%N, PAtom [22])]])]]))
+          /\ vnav_index ex_odo_dcount [1; 21; 22] v 0 = Err KeyError
+      | Err _ => False
+      end
+  | Err _ => False
+  end.
+Proof. vm_compute. split; reflexivity. Qed.
+
+(* ------------------------------------------------------------------ the tie to C01's layout model:
+   forgetting the atom annotation turns walkv / vnav_name / vnav_index / vnav_raw into walk / nav_name / nav_index /
+   nav_raw of Model/Layout.v, so C01's theorems about starts and ends speak about these locations *)
+Theorem C10_extends_C01 : forall (B : Type) (dcount : list B -> nat) (r : list B),
+  (forall s, nav_of dcount r s = erase_rnav (vnav_of dcount r s))
+  /\ (forall v k, nav_name (erase_nav v) k = erase_rnav (vnav_name v k))
+  /\ (forall v i, nav_index dcount r (erase_nav v) i = erase_rnav (vnav_index dcount r v i))
+  /\ (forall v, nav_raw r (erase_nav v) = vnav_raw r v).
+Proof.
+  intros B dcount r. repeat split.
+  - apply nav_of_erase.
+  - apply nav_name_erase.
+  - apply nav_index_erase.
+  - apply nav_raw_erase.
+Qed.
+Print Assumptions C10_extends_C01.
+
+(* ------------------------------------------------------------------ the other two navigator families.
+   DNav.value() and WBNav.value() return the instance itself, so whole-versus-part reads
+   value(path p nav) = instance indexed by p.  These are C15's and C09's lemmas, restated. *)
+(* DNav: whatever navigation by names and indices returns is what plain indexing of the document returns *)
+Theorem C10_dnav : forall root v p x,
+  SR.Model.SchemaMaker.nav_value root v p = Ok x -> SR.Spec.JsonDoc.index_json v p = Ok x.
+Proof. exact SR.Proofs.SchemaMakerP.nav_value_sound. Qed.
+Print Assumptions C10_dnav.
+
+Theorem C10_wbnav_name : forall (h : SR.Model.HeaderRow.row) (body : SR.Model.HeaderRow.sheet) pre os rows,
+  SR.Model.HeaderRow.row_iter SR.Model.HeaderRow.HeadingRow pre (h :: body) = Ok (os, rows) ->
+  NoDup (map SR.Model.HeaderRow.str_of h) ->
+  exists s, os = Some s /\
+    forall (r : SR.Model.HeaderRow.row) (i : nat) (c : SR.Model.HeaderRow.cell),
+      nth_error h i = Some c -> SR.Model.HeaderRow.nav_name s (SR.Model.HeaderRow.str_of c) r = Ok (nth_error r i).
+Proof. exact SR.Proofs.HeaderRowP.by_name_table. Qed.
+Print Assumptions C10_wbnav_name.
+
+Theorem C10_wbnav_values : forall (h : SR.Model.HeaderRow.row) (body : SR.Model.HeaderRow.sheet) pre os rows,
+  SR.Model.HeaderRow.row_iter SR.Model.HeaderRow.HeadingRow pre (h :: body) = Ok (os, rows) ->
+  NoDup (map SR.Model.HeaderRow.str_of h) ->
+  exists s, os = Some s /\
+    forall r : SR.Model.HeaderRow.row,
+      SR.Model.HeaderRow.values s r = Ok (SR.Spec.Table.cells_in_header_order (length h) r).
+Proof. exact SR.Proofs.HeaderRowP.values_table. Qed.
+Print Assumptions C10_wbnav_values.
